@@ -131,6 +131,28 @@ func (w *MWorld) execM(o MOp) (kind int64, payload []int64) {
 		}
 	case "MdotM":
 		w.getm(o.MR).MdotM(w.getm(o.MA), w.getm(o.MB))
+	case "MJoint":
+		// the PUBLIC two-way joint iterator of a sparse matrix: the visit sequence is the observable
+		// (per visit: linear index, s1 != nil, value of s1, value of s2)
+		a, b := w.SM[o.MA.H], w.getm(o.MB)
+		n1, c1 := a.Dims()
+		n2, c2 := b.Dims()
+		if n1 != n2 || c1 != c2 {
+			panic("dims")
+		}
+		visits := 0
+		for it := a.JointIterator(b); it.Ok(); it.Next() {
+			if visits++; visits > 4*(n1*c1+2) {
+				panic("joint iterator does not terminate")
+			}
+			i, j := it.Index()
+			s1, s2 := it.GetConst()
+			has, v1 := int64(0), int64(0)
+			if s1 != nil {
+				has, v1 = 1, code(s1.GetFloat64())
+			}
+			payload = append(payload, int64(i*c1+j), has, v1, code(s2.GetFloat64()))
+		}
 	case "MOuter":
 		w.getm(o.MR).Outer(w.get(o.A), w.get(o.B))
 	case "MdotV":
@@ -213,6 +235,8 @@ func coqMOp(o MOp) string {
 		return o.Op + " " + coqM(o.MR)
 	case "MEquals":
 		return fmt.Sprintf("MEquals %s %s %s", coqM(o.MA), coqM(o.MB), Z(o.X))
+	case "MJoint":
+		return fmt.Sprintf("MJoint %d %s", o.MA.H, coqM(o.MB))
 	case "MOuter":
 		return fmt.Sprintf("MOuter %s %s %s", coqM(o.MR), coqRef(o.A), coqRef(o.B))
 	case "MdotV":
